@@ -246,6 +246,25 @@ def effect_skeleton(ctx, f, dev):
                     kws = [k for k in cs.call.keywords if not (name.endswith("condense_log") and k.arg == "label")]
                     args = (recv,) + tuple(term(a, cs.node) for a in cs.call.args) + tuple(sorted((k.arg or "**", term(k.value, cs.node)) for k in kws))
                     break
+        if what is None and n.kind == "handler":
+            h = n.ast
+            types = sorted(ast.unparse(t).split(".")[-1] for t in (h.type.elts if isinstance(h.type, ast.Tuple) else [h.type])) if h.type is not None else ["<bare>"]
+            bare_reraise = any(isinstance(x, ast.Raise) and x.exc is None for x in _walk(h))
+            what = f"except {types} reraise={bare_reraise}"
+        if what is None and n.kind == "stmt" and isinstance(n.ast, (ast.Assign, ast.AugAssign, ast.Delete)):
+            tg = n.ast.targets if isinstance(n.ast, (ast.Assign, ast.Delete)) else [n.ast.target]
+            for x in tg:
+                base = x
+                while isinstance(base, (ast.Subscript, ast.Attribute)):
+                    base = base.value
+                if isinstance(base, ast.Name) and base.id in f.params and not isinstance(x, ast.Name):
+                    what = f"mutate parameter #{f.params.index(base.id)}"
+                    args = (term(x, n.id),)
+        if what is None:
+            for cs in fv.calls():
+                if cs.node == n.id and isinstance(cs.call.func, ast.Attribute) and isinstance(cs.call.func.value, ast.Name) and cs.call.func.value.id in f.params[1:] \
+                        and cs.call.func.attr in ("update", "pop", "setdefault", "clear", "popitem", "append", "extend", "insert", "remove", "sort"):
+                    what = f"mutate parameter #{f.params.index(cs.call.func.value.id)} .{cs.call.func.attr}"
         if what is None:
             continue
         dep = lambda t: "wash_scheme" in t and "Is()" in t  # noqa: E731  (inside the deprecated block)
